@@ -1,4 +1,5 @@
 import Gpc.Proofs.Printf
+import Gpc.Proofs.Print
 /-!
 # C10 — bounded formatting never writes past its limit and reports the full length
 
@@ -78,6 +79,89 @@ theorem bounded_prefix (fmt : Bytes) (args : List Arg) (out dest : Bytes)
     have hc2 : ({ p with data := d' } : PF).cap = dest.length := by simp only [PF.cap, l']; exact hc
     exact ⟨_, by simp [e'], l2, hc2, by rw [← hc2]; exact t2⟩
   · exact ⟨p, rfl, l, hc, by rw [← hc]; exact t⟩
+
+/-- **C10, bounded print** (`gp_bytes_print`, and `gp_str_n_print` whose storage holds at least `n`
+bytes): for every list of objects with a defined text `t` (typed values and embedded format strings
+with their arguments) and every limit, on any destination of `n` bytes: no write leaves the
+destination, the value returned is the complete length and the bytes written are the first
+`min(|t|, n)` bytes of the complete output. -/
+theorem bounded_print (objs : List Obj) (t dest : Bytes)
+    (ht : printModelText (objs.length + 1) objs = some t) :
+    ∃ p, printObjs (objs.length + 1) { data := dest, length := 0 } objs false = some (some p) ∧
+      p.data.length = dest.length ∧ p.length = t.length ∧
+      p.data.take (min t.length dest.length) = t.take dest.length := by
+  have h0 : Agrees ({ data := dest, length := 0 } : PF) [] := ⟨rfl, fun i _ hi => by simp at hi⟩
+  obtain ⟨p, e, c, a⟩ := printObjs_ok (objs.length + 1) _ [] t objs h0 ht
+  simp only [List.nil_append] at a
+  obtain ⟨l, tk⟩ := agrees_take p t a
+  have hc : p.cap = dest.length := c
+  exact ⟨p, e, hc, l, by rw [← hc]; exact tk⟩
+
+/-- **C10, bounded println**: for every non-empty list of objects and every limit, the objects, the
+separating spaces and the final newline are all written inside the destination. -/
+theorem bounded_println_in_bounds (objs : List Obj) (t dest : Bytes) (hne : objs ≠ [])
+    (ht : printModelText (objs.length + 1) objs = some t) :
+    ∃ p p', printObjs (objs.length + 1) { data := dest, length := 0 } objs true = some (some p) ∧
+      printlnEnd p = some p' ∧ p'.data.length = dest.length := by
+  have h0 : Agrees ({ data := dest, length := 0 } : PF) [] := ⟨rfl, fun i _ hi => by simp at hi⟩
+  obtain ⟨p, e, c, _, _, z⟩ := printlnObjs_ok (objs.length + 1) _ t objs ⟨[], h0⟩ ht
+  obtain ⟨p', e', c', _⟩ := printlnEnd_ok p (z hne)
+  exact ⟨p, p', e, e', by have := c'.trans c; simpa [PF.cap] using this⟩
+
+/-- `gp_str_print` reserves at least the room a value's text needs (`gp_max_digits_in`): integers of
+int and long long width, characters, booleans, strings and pointers (the `%g` bound of 15 bytes is
+checked by the correspondence run only) -/
+theorem estimate_suffices (k : Kind) (v : Arg) (t : Bytes) (ht : valText k v = some t) (hk : k ≠ .dbl) :
+    t.length ≤ valEstimate k v := by
+  have dlen : ∀ (base x n : Nat), 2 ≤ base → 1 ≤ n → n ≤ 64 → x < base ^ n → (natDigits base false x).length ≤ n :=
+    fun base x n hb h1 hn hx => by
+      have hx64 : x < base ^ 64 := Nat.lt_of_lt_of_le hx (Nat.pow_le_pow_right (by omega) hn)
+      rw [← digits_eq base false x hb hx64]
+      unfold PF.digits; rw [List.length_reverse]
+      exact PF.revDigits_length base false hb 64 n x h1 hx
+  have sgn : ∀ (len : LenMod) (raw n : Nat), 1 ≤ n → n ≤ 64 → (signedArg len raw).natAbs < 10 ^ n →
+      (fmtSigned { conv := 'd', len := len } raw).length ≤ n + 1 := fun len raw n h1 hn hx => by
+    rw [fmtSigned_plain]
+    have := dlen 10 _ n (by omega) h1 hn hx
+    simp only [List.length_append]
+    split <;> simp <;> omega
+  cases k <;> cases v <;> simp only [valText] at ht <;> (try (cases ht)) <;> simp only [valEstimate]
+  · simp
+  · rename_i raw
+    have h : raw % 2 ^ 32 < 10 ^ 10 := by
+      have : raw % 2 ^ 32 < 2 ^ 32 := Nat.mod_lt _ (by decide)
+      have : (2:Nat) ^ 32 < 10 ^ 10 := by decide
+      omega
+    exact Nat.le_trans (dlen 10 _ 10 (by omega) (by omega) (by omega) h) (by decide)
+  · rename_i raw
+    have h : raw % 2 ^ 64 < 10 ^ 20 := by
+      have : raw % 2 ^ 64 < 2 ^ 64 := Nat.mod_lt _ (by decide)
+      have : (2:Nat) ^ 64 < 10 ^ 20 := by decide
+      omega
+    exact Nat.le_trans (dlen 10 _ 20 (by omega) (by omega) (by omega) h) (by decide)
+  · split <;> simp
+  · rename_i raw
+    have hm : (signedArg .none raw).natAbs < 10 ^ 10 := by
+      have : (signedArg .none raw).natAbs ≤ 2 ^ 31 := signedArg_abs_le .none raw
+      have : (2:Nat) ^ 31 < 10 ^ 10 := by decide
+      omega
+    exact Nat.le_trans (sgn .none raw 10 (by omega) (by omega) hm) (by decide)
+  · rename_i raw
+    have hm : (signedArg .ll raw).natAbs < 10 ^ 19 := by
+      have : (signedArg .ll raw).natAbs ≤ 2 ^ 63 := signedArg_abs_le .ll raw
+      have : (2:Nat) ^ 63 < 10 ^ 19 := by decide
+      omega
+    exact Nat.le_trans (sgn .ll raw 19 (by omega) (by omega) hm) (by decide)
+  · exact absurd rfl hk
+  · simp
+  · simp
+  · rename_i raw
+    have h : raw % 2 ^ 64 < 16 ^ 16 := by
+      have : raw % 2 ^ 64 < 2 ^ 64 := Nat.mod_lt _ (by decide)
+      have : (2:Nat) ^ 64 = 16 ^ 16 := by decide
+      omega
+    have := dlen 16 _ 16 (by omega) (by omega) (by omega) h
+    split <;> simp <;> omega
 
 /-! ## non-vacuity -/
 
